@@ -2,6 +2,7 @@ package cover
 
 import (
 	"bytes"
+	"github.com/benhoyt/goawk/lexer"
 	"os"
 	"strings"
 
@@ -31,10 +32,20 @@ var verifStmtKinds = []string{
 }
 
 // build a statement list from case-split kinds, nested to the given depth
+var verifSimpleStmt = ""
+
 func verifBuildStmts(n, depth int, kinds []int) (src string, count int) {
 	for i := 0; i < n; i++ {
 		ki := kinds[verifIntRange(0, len(kinds)-1)]
 		k := verifStmtKinds[ki]
+		if ki == 8 {
+			// the simple statements that end a block or carry their own keyword positions
+			if verifSimpleStmt == "" {
+				// chosen once per run, at the first place the list generator picks this kind
+				verifSimpleStmt = []string{"next", "nextfile", "exit 1", "delete arr[1]"}[verifIntRange(0, 3)]
+			}
+			k = verifSimpleStmt
+		}
 		count++
 		if ki == 10 {
 			count++ // "if (a) x++" holds two statements
@@ -58,6 +69,14 @@ type verifWalk struct {
 	ok       bool
 	original int
 	seen     map[int]bool
+	posBad   bool
+}
+
+func verifPosLE(a, b lexer.Position) bool {
+	return a.Line < b.Line || (a.Line == b.Line && a.Column <= b.Column)
+}
+func verifPosLT(a, b lexer.Position) bool {
+	return a.Line < b.Line || (a.Line == b.Line && a.Column < b.Column)
 }
 
 func (w *verifWalk) isCounter(s ast.Stmt) (int, bool) {
@@ -108,6 +127,11 @@ func (w *verifWalk) list(ss ast.Stmts) {
 			w.original++
 			s := ss[i]
 			i++
+			// the statement lies inside its block's reported range and is not empty
+			if b := w.cov.trackedBlocks[k-1]; !verifPosLE(b.start, s.StartPos()) || !verifPosLE(s.StartPos(), b.end) || !verifPosLT(s.StartPos(), s.EndPos()) ||
+				(!verifIsControl(s) && !verifPosLE(s.EndPos(), b.end)) {
+				w.posBad = true
+			}
 			w.nested(s)
 			if verifIsControl(s) {
 				break // a block never spans a control-flow statement boundary
@@ -154,6 +178,7 @@ func verifAnnotate(src string, mode Mode) (*parser.Program, *Cover, *parseutil.F
 }
 
 func VerifC18Partition() {
+	verifSimpleStmt = ""
 	body, count := verifBuildStmts(verifIntRange(1, verifBound(2, 3)), verifBound(1, 2), []int{0, 1, 2, 3, 4, 5, 6, 7, 8, 9, 10})
 	src := "{\n" + body + "}\n"
 	prog, cov, _, err := verifAnnotate(src, []Mode{ModeSet, ModeCount}[verifIntRange(0, 1)])
@@ -171,10 +196,11 @@ func VerifC18Partition() {
 	for _, b := range cov.trackedBlocks {
 		total += b.numStmts
 		posOK = posOK && b.path == "prog.awk" && b.start.Line >= 1 && b.end.Line <= nlines &&
-			(b.start.Line < b.end.Line || (b.start.Line == b.end.Line && b.start.Column <= b.end.Column))
+			(b.start.Line < b.end.Line || (b.start.Line == b.end.Line && b.start.Column < b.end.Column))
 	}
 	verifAssert(len(w.seen) == len(cov.trackedBlocks) && total == count && w.original == count, "the counted blocks do not cover every statement of the program exactly once")
 	verifAssert(posOK, "a reported block does not lie inside the named source file with its start before its end")
+	verifAssert(!w.posBad, "a statement does not lie inside the source range reported for its block (every statement starts inside the range, has a non-empty extent, and a block ends no earlier than its last simple statement)")
 }
 
 // transparency and exact counts on template programs with symbolic input
@@ -254,7 +280,7 @@ func VerifC18Profile() {
 	if existing != 0 {
 		verifAssert(os.WriteFile(path, []byte(old), 0644) == nil, "could not create the earlier profile")
 	}
-	c1, c2 := verifIntRange(0, 2), verifIntRange(0, 1)
+	c1, c2 := []int{0, 1, 2, 999999, 1000000, 1234567, 2147483648}[verifIntRange(0, 6)], verifIntRange(0, 1)
 	data := map[string]interface{}{"1": float64(c1), "2": float64(c2)}
 	verifAssert(cov.WriteProfile(path, data) == nil, "WriteProfile failed")
 	got, rerr := os.ReadFile(path)
